@@ -36,7 +36,8 @@ CHECKS = {
                 "back through old and fresh reader objects; returned blocks must equal the model's block decomposition "
                 "bit for bit in every subchannel (values are a keyed hash of index/subchannel/component/call over the full "
                 "bit range). Sampled, not exhaustive.",
-        "note": _RFNOTE + " The C-API replay (cnode) is part of C05's check, not of this one.",
+        "note": _RFNOTE + " Every fourth run the same session is replayed through the public C API (cnode, ASan/UBSan) "
+                "and that tree is read back against the model too.",
     },
     "C04": {
         "engine": "rfsim", "level": "exploration", "design_ref": "DESIGN.md 5/C04",
@@ -52,7 +53,9 @@ CHECKS = {
         "text": "Invalid calls of all eight classes are interleaved with valid ones at seeded positions; each must raise, "
                 "leave names/sizes/hashes/mtimes/inodes of the channel directory and all writer getters unchanged, and the "
                 "following valid calls must return what a model that never saw the rejected call predicts.",
-        "note": _RFNOTE + " Python API only in this round (the C-API driver cnode is not built yet).",
+        "note": _RFNOTE + " Every second run replays the same history through the public C API with the ASan/UBSan driver "
+                "cnode (paused after every call): C-level rejections (incl. gapped blocks in continuous mode and "
+                "index_len = 0) must leave files and cursor untouched; any sanitizer report is a violation.",
     },
     "C06": {
         "engine": "rfsim", "level": "exploration", "design_ref": "DESIGN.md 5/C06",
